@@ -36,7 +36,7 @@ PROPS = {
         "fault_probes": ["cancel_pending", "cancel_at_current_time_in_bucket", "cancel_in_zero_bucket", "cancel_already_fetched"],
         "expected_probes": ["cancel_at_current_time_in_bucket", "cancel_in_zero_bucket", "cancel_already_fetched",
                             "add_at_current_time", "add_beyond_year", "tie_created", "fetch_from_zero_bucket",
-                            "event_at_duration_max", "external_add_while_paused"],
+                            "event_at_duration_max", "external_add_while_paused", "one_bucket_spanning_the_whole_time_axis", "event_at_duration_max_fetched"],
         "components": {"real": REAL_FES + ["des::runtime::Runtime, FutureEventSet (real code, one program in eight)"], "stub": STUB_FES + ["Application / Event implementations (runtime-level programs)"]},
         "assumptions": ["reference priority queue (Vec of (time, seq, state)) is the oracle",
                         "single fetch scans at most 200000 buckets (far-future times are capped)",
@@ -58,7 +58,7 @@ PROPS = {
                 "handler-scheduled event and (non-zero start time or >= 1 past attempt)",
         "fault_probes": ["past_attempt", "past_root_attempt", "other_thread_built_a_runtime_during_a_handler"],
         "expected_probes": ["past_attempt", "past_root_attempt", "nonzero_start_time", "zero_delay_child", "tie_adjacent_pairs", "run_beyond_2_pow_64_ns",
-                            "other_thread_built_a_runtime_during_a_handler", "clock_checked_under_stepping", "handler_panic_caught_by_the_driver", "helper_thread_read_the_clock"],
+                            "other_thread_built_a_runtime_during_a_handler", "clock_checked_under_stepping", "handler_panic_caught_by_the_driver", "helper_thread_read_the_clock", "program_late_in_a_long_simulation"],
         "components": {"real": ["des::runtime::{Runtime, Builder, FutureEventSet}, des::time::SimTime, des-cqueue (real code)"],
                        "stub": ["Application / Event implementations: harness interpreter of the generated program"]},
         "assumptions": ["cqueue backend (default feature set)", "sampled programs, not exhaustive"],
@@ -83,7 +83,7 @@ PROPS = {
                 "the start: same deliveries per module, same number of dispatched events, same end time",
         "fault_probes": ["external_add_while_paused", "cut_inside_tie_group", "cut_with_two_or_more_pending", "message_injected_while_paused"],
         "expected_probes": ["external_add_while_paused", "cut_inside_tie_group", "cut_with_two_or_more_pending",
-                            "message_injected_while_paused", "message_injected_for_the_reported_instant"],
+                            "message_injected_while_paused", "message_injected_for_the_reported_instant", "program_late_in_a_long_simulation"],
         "components": {"real": ["des::runtime::{Runtime, Builder, RuntimeLimit, FutureEventSet}, des-cqueue (real code)",
                                 "des::net (Sim, modules, gates, latency-only channels; one program in ten) (real code)"],
                        "stub": ["Application / Event implementations: harness interpreter of the generated program",
@@ -104,7 +104,7 @@ PROPS = {
                 "timestamps; distinct = distinct program hash; non-trivial = the limit stopped the run with events remaining or "
                 "sits exactly on a boundary (n == total, T == a timestamp)",
         "fault_probes": ["limit_stopped_run", "limit_on_boundary"],
-        "expected_probes": ["limit_stopped_run", "limit_on_boundary", "handler_panic_caught_by_the_driver", "event_added_after_the_limit_stopped_the_run"],
+        "expected_probes": ["limit_stopped_run", "limit_on_boundary", "handler_panic_caught_by_the_driver", "event_added_after_the_limit_stopped_the_run", "program_late_in_a_long_simulation"],
         "components": {"real": ["des::runtime::{Runtime, Builder, RuntimeLimit, Profiler} (real code)"],
                        "stub": ["Application / Event implementations: harness interpreter of the generated program"]},
         "assumptions": ["cqueue backend (default feature set)", "sampled programs and limits, not exhaustive"],
@@ -123,7 +123,7 @@ PROPS = {
                 "distinct = distinct program hash; non-trivial = a tie group >= 2 was created",
         "fault_probes": ["cancel_pending"],
         "expected_probes": ["tie_created", "add_at_current_time", "fetch_from_zero_bucket", "add_beyond_year",
-                            "tie_rule_checked_under_stepping", "external_add_lands_in_tie_group"],
+                            "tie_rule_checked_under_stepping", "external_add_lands_in_tie_group", "one_bucket_spanning_the_whole_time_axis", "event_at_duration_max_fetched"],
         "components": {"real": REAL_FES + ["des::runtime::Runtime (real code)"], "stub": STUB_FES + ["Application / Event implementations"]},
         "assumptions": ["claimed for the cqueue backend only (default feature set), as the property says",
                         "sampled histories, not exhaustive"],
